@@ -206,7 +206,7 @@ BLOCK = {'aes128': (XENC + 'aes128-cbc', 'aes-128'), 'aes256': (XENC + 'aes256-c
 TRANSPORT = {'rsa15': XENC + 'rsa-1_5', 'oaep': XENC + 'rsa-oaep-mgf1p'}
 
 
-def encrypt_assertions(response, cert_idx, block='aes128', transport='oaep'):
+def encrypt_assertions(response, cert_idx, block='aes128', transport='oaep', xpath=None):
     """response: XML whose assertions are already wrapped as <saml:EncryptedAssertion><saml:Assertion ..>; encrypts the first
     (remaining) clear assertion inside an EncryptedAssertion for pool certificate cert_idx."""
     tmpl = _tmp(ENC_TEMPLATE % (XENC, BLOCK[block][0], DS, TRANSPORT[transport]))
@@ -214,7 +214,7 @@ def encrypt_assertions(response, cert_idx, block='aes128', transport='oaep'):
     out = src + '.out'
     try:
         rc, o, e = _tool(['--encrypt', '--pubkey-cert-pem', world.crt(cert_idx), '--session-key', BLOCK[block][1], '--xml-data', src,
-                          '--node-xpath', "/*[local-name()='Response']/*[local-name()='EncryptedAssertion']/*[local-name()='Assertion']",
+                          '--node-xpath', xpath or "/*[local-name()='Response']/*[local-name()='EncryptedAssertion']/*[local-name()='Assertion']",
                           '--output', out, tmpl])
         if rc != 0:
             raise RuntimeError('harness encryption failed: %r' % e)
